@@ -139,3 +139,15 @@ impl<'a> GC<'a> {
         (root_lists, root_records)
     }
 }
+
+// Verification hook, compiled only with --cfg pakhi_verif: runs one collection on given heap
+#[cfg(pakhi_verif)]
+pub fn verif_collect(envs: &mut Vec<HashMap<String, Option<DataType>>>,
+                     lists: &mut Vec<Vec<DataType>>,
+                     free_lists: &mut Vec<usize>,
+                     nameless_records: &mut Vec<HashMap<String, DataType>>,
+                     free_nameless_records: &mut Vec<usize>)
+{
+    let mut gc = GC::new(envs, lists, free_lists, nameless_records, free_nameless_records);
+    gc.collect_garbage();
+}
